@@ -40,6 +40,8 @@ CORE_CFG = {
     # kind: (quick exhaustive, thorough exhaustive, simulation cfg, quick nsim, thorough nsim, depth)
     "q": ("MCCoreQ_quick.cfg", "MCCoreQ.cfg", "MCCoreQ_sim.cfg", 500, 6000, 70),
     "a": ("MCCoreA.cfg", "MCCoreA_deep.cfg", "MCCoreA_sim.cfg", 500, 6000, 90),
+    "l": ("MCCoreL_open.cfg", "MCCoreL_open.cfg", "MCCoreL_sim.cfg", 300, 3000, 90),
+    "l2": ("MCCoreL_warn.cfg", "MCCoreL_warn.cfg", "MCCoreL2_sim.cfg", 300, 3000, 90),
 }
 
 
@@ -112,6 +114,7 @@ SPECS = {
     "C04": [lambda p, t, s: run_core("a", p, t, s)],
     "C05": [lambda p, t, s: run_core("a", p, t, s)],
     "C16": [lambda p, t, s: run_core("a", p, t, s)],
+    "C20": [lambda p, t, s: run_core("l", p, t, s), lambda p, t, s: run_core("l2", p, t, s)],
 }
 
 
